@@ -440,6 +440,13 @@ def run(ck: Check) -> None:
 
     ck.search_hooks.insert(0, c01_imports.search)
     guard.campaign(ck, c01_imports.campaign_import_groups, run_case, random_opts, 250 if quick else 3000)
+    # regex patterns as source text: the real pattern_literal vs Proofs/PatternLit (pattern_literal_one_token), and the
+    # always-run family of patterns over the quote / backslash / newline / brace alphabet in complete documents
+    from . import c01_pattern
+
+    ck.search_hooks.insert(0, c01_pattern.search)
+    guard.campaign(ck, c01_pattern.campaign_patlit, 600 if quick else 20000)
+    guard.campaign(ck, c01_pattern.campaign_patterns, 6 if quick else 400)
     guard.campaign(ck, _campaign_templates, quick)
     guard.campaign(ck, tpl_search.self_test)
     probe, PROBE = PROBE, None
